@@ -149,8 +149,11 @@ class _FilesystemDataSource(DataSource):
         if not os.path.exists(non_versioned_path):
             result = False
         else:
+            # The link must point to an object file. A link that was created but never (or only
+            # partially) written, e.g. because the process died or the disk was full, reads
+            # as '' (which Path resolves to '.') or as a truncated path: it does not exist.
             path = self._read_non_versioned_link(key)
-            result = path.exists()
+            result = path.is_file()
         log.debug("Exists {}? {}".format(key, result))
         return result
 
